@@ -34,6 +34,7 @@ class World:
         self.arrs = []
         self.tab1, self.tab2, self.tabv = {}, {}, {}
         self.fresh = []
+        self.shadowed = 0
         for bi, n in enumerate(sizes):
             base = 100 * bi
             if kind == "mjd":
@@ -161,7 +162,29 @@ def apply_op(w: World, op, variant_rng):
         elif k == "scale":
             # to TAI, and from TAI back to the scale of the source arrays (for gps_ws that comes back in format jd:
             # equal epochs in another format)
-            r = t.tai if t.scale != "tai" else getattr(t, w.base_scale)
+            target = "tai" if t.scale != "tai" else w.base_scale
+            if variant_rng.random() < 0.5:
+                # an unrelated array holding the same numbers in another scale is converted first: what it computed
+                # must not be handed out for `t` (the conversion caches are keyed through __hash__/__eq__)
+                try:
+                    sh_scale = "tt" if t.scale != "tt" else "tcg"
+                    v = np.asarray(t)
+                    if t.fmt == "gps_ws":
+                        v = v.reshape(-1, 3)
+                        sh = w.Time(v[:, 0].copy(), val2=v[:, 1].copy(), fmt="gps_ws", scale=sh_scale) if np.ndim(t.jd1) else \
+                            w.Time(float(v[0, 0]), val2=float(v[0, 1]), fmt="gps_ws", scale=sh_scale)
+                    elif t.fmt == "jd":
+                        sh = w.Time(np.array(t.jd1), val2=np.array(t.jd2), fmt="jd", scale=sh_scale) if np.ndim(t.jd1) else \
+                            w.Time(float(t.jd1), val2=float(t.jd2), fmt="jd", scale=sh_scale)
+                    else:
+                        sh = w.Time(v.copy() if np.ndim(v) else float(v), fmt=t.fmt, scale=sh_scale)
+                    if np.array_equal(np.asarray(sh.jd1), np.asarray(t.jd1)) and np.array_equal(np.asarray(sh.jd2), np.asarray(t.jd2)):
+                        w.shadowed += 1
+                    getattr(sh, target)
+                    sh.tai, sh.utc, sh.gps
+                except (ValueError, TypeError, IndexError):
+                    pass
+            r = getattr(t, target)
         elif k == "iter":
             items = [x for x in t]
             out = [w.obs(x) for x in items]
@@ -277,12 +300,12 @@ def check_object(ctx: Ctx, w: World, x, where, case):
         return
     if -1 in v:
         ctx.violate("unknown-epoch:" + where, "a derived array contains an epoch that was in no source array", case)
-    if not sc:
-        try:
-            if len(x) != len(v):
-                ctx.violate("len:" + where, f"len() = {len(x)} for {len(v)} epochs", case)
-        except TypeError:
-            pass
+    try:
+        if len(x) != len(v):
+            ctx.violate("len:" + where, f"len() = {len(x)} for {len(v)} epochs" + (" (a single epoch)" if sc else ""), case)
+    except TypeError:
+        if not sc:
+            ctx.violate("len-raises:" + where, "len() of a non-scalar time array raises TypeError", case)
     # derived formats are computed from the jd parts: must agree with the values
     try:
         if x.fmt == "mjd" and np.size(x) > 0:
@@ -389,6 +412,7 @@ def run_sequence(ctx: Ctx, Time, kind, sizes, ops_symbolic, rng, exhaustive):
                 ctx.violate("hash-eq", "two equal time arrays have different hashes", case)
             if not eq and len(key[2]) > 0:
                 ctx.violate("eq-same-epochs", "two arrays with identical jd parts compare unequal", case)
+    ctx.count("cross-scale-shadow-same-jd", w.shadowed) if w.shadowed else None
     if exhaustive is False and rng.random() < 0.3:
         for x in rng.sample(w.arrs, min(3, len(w.arrs))):
             check_immutable(ctx, x, case)
